@@ -59,13 +59,16 @@ def deviations(info, seed):
         devs.append(("drop+GSUB", {"drop_tables": DEFAULT_DROP + ["GSUB"]}))
         devs.append(("drop+GPOS", {"drop_tables": DEFAULT_DROP + ["GPOS"]}))
         devs.append(("recalc-max-context", {"recalc_max_context": True}))
-    sc = info.scripts
-    if "latn" in sc and "DFLT" in sc:
-        devs.append(("scripts=latn", {"layout_scripts": ["latn"]}))
-        devs.append(("scripts=DFLT", {"layout_scripts": ["DFLT"]}))
-    if "latn.TRK " in sc:
-        devs.append(("scripts=latn.TRK", {"layout_scripts": ["latn.TRK"]}))
-        devs.append(("scripts=latn.dflt", {"layout_scripts": ["latn.dflt"]}))
+    scripts = script_priority(info)
+    if len(scripts) >= 2:
+        for sc in scripts[:2]:
+            devs.append(("scripts=%s" % sc, {"layout_scripts": [sc]}))
+    for sc in scripts:
+        if info.script_langs[sc]:
+            lang = info.script_langs[sc][0]
+            devs.append(("scripts=%s.%s" % (sc, lang.strip()), {"layout_scripts": ["%s.%s" % (sc, lang.strip())]}))
+            devs.append(("scripts=%s.dflt" % sc, {"layout_scripts": ["%s.dflt" % sc]}))
+            break
     devs.append(("retain-gids", {"retain_gids": True}))
     if "glyf" in t:
         # "not possible for Postscript-flavored fonts, as those require '.notdef'"
@@ -124,6 +127,13 @@ class FontInfo:
         self.cm, self.uvs = F.unicode_map(font)
         self.feats = F.feature_tags(font)
         self.scripts = F.script_tags(font)
+        self.script_langs = {}
+        for st in sorted(self.scripts):
+            if "." in st:
+                sc, lang = st.split(".")
+                self.script_langs.setdefault(sc, []).append(lang)
+            else:
+                self.script_langs.setdefault(st, [])
         self.hbf = hbridge.HBFont(data)
         self.locs = var_locations(font)
         self.kinds = F.lookup_kinds(font)
@@ -353,33 +363,51 @@ def hb_shape(hbf, text, features, mode):
     buf = hb.Buffer()
     buf.add_str(text)
     buf.direction = "ltr"
-    buf.script = script
-    buf.language = lang or "en"
+    if script == "DFLT":
+        buf.script = "Zyyy"  # no OpenType script of its own: selects DFLT
+    else:
+        buf.set_script_from_ot_tag(script)
+    if lang:
+        buf.set_language_from_ot_tag(lang)
+    else:
+        buf.language = "und"  # no language system tag: the default language system
     buf.cluster_level = hb.BufferClusterLevel.MONOTONE_CHARACTERS
     hb.shape(hbf.font, buf, features)
     return [(i.codepoint, i.cluster, p.x_advance, p.y_advance, p.x_offset, p.y_offset) for i, p in zip(buf.glyph_infos, buf.glyph_positions)]
 
 
-def shaping_modes(info, scripts_opt):
-    """(ISO 15924 script, language) pairs to shape with, such that original and subset select
-    the same OpenType script / language system under the given --layout-scripts."""
-    sc = info.scripts
-    if "*" in scripts_opt:
-        modes = [("Latn", None)]
-        if "latn" in sc and "DFLT" in sc:
-            modes.append(("Zyyy", None))
-        if "latn.TRK " in sc:
-            modes.append(("Latn", "tr"))
-        return modes
+def script_priority(info):
+    return sorted(info.script_langs, key=lambda t: ({"latn": 0, "DFLT": 1}.get(t, 2), t))
+
+
+def all_modes(info):
+    """(OpenType script tag, language system tag or None) pairs to shape with: the first three
+    scripts of the font (latn, DFLT first), each with its default and its first language system"""
+    scripts = script_priority(info)[:3]
+    if not scripts:
+        return [("latn", None)]
     modes = []
-    for s in scripts_opt:
-        if s in ("latn", "latn.dflt"):
-            modes.append(("Latn", None))
-        elif s == "DFLT":
-            modes.append(("Zyyy", None))
-        elif s == "latn.TRK":
-            modes.append(("Latn", "tr"))
+    for sc in scripts:
+        modes.append((sc, None))
+        for lang in info.script_langs[sc][:1]:
+            modes.append((sc, lang))
     return modes
+
+
+def shaping_modes(info, scripts_opt):
+    """modes under which original and subset select the same OpenType script / language system
+    given --layout-scripts (a script or language system the option drops is not shaped with)."""
+    modes = all_modes(info)
+    if "*" in scripts_opt:
+        return modes
+    out = []
+    for sc, lang in modes:
+        if lang is None:
+            if sc in scripts_opt or sc + ".dflt" in scripts_opt:
+                out.append((sc, lang))
+        elif sc in scripts_opt or "%s.%s" % (sc, lang.strip()) in scripts_opt:
+            out.append((sc, lang))
+    return out
 
 
 def feature_dict(info, kw):
@@ -410,18 +438,16 @@ def feature_dict(info, kw):
 
 
 def selected_records(font, tag, mode):
-    """(script record present, langsys record present) for the OpenType script / language
-    system a shaping mode selects in table `tag` ('latn' for Latn, 'DFLT' for Zyyy)."""
+    """(script record present, language system record present) for the OpenType script /
+    language system a shaping mode names, in table `tag`."""
     if tag not in font or not font[tag].table.ScriptList:
         return None
     script, lang = mode
-    want = "latn" if script == "Latn" else "DFLT"
     for sr in font[tag].table.ScriptList.ScriptRecord:
-        if sr.ScriptTag == want:
+        if sr.ScriptTag == script:
             if lang is None:
                 return (True, sr.Script.DefaultLangSys is not None)
-            ltag = {"tr": "TRK "}[lang]
-            return (True, any(l.LangSysTag == ltag for l in sr.Script.LangSysRecord))
+            return (True, any(l.LangSysTag == lang for l in sr.Script.LangSysRecord))
     return (False, False)
 
 
